@@ -545,15 +545,39 @@ package raft
 //@   ensures [C20.lock-released] result0 == nil ==> !fs[pjoin(dir, "lock")]
 //@   ensures forall(p, p != pjoin(dir, "lock") ==> fs[p] == old(fs[p]))
 
-// openValue (trusted here; T-fs): returns the single value file of (dir, ext), creating
-// "0-0<ext>" only when none exists.
-//@ func openValue
-//@   trusted
+// openValue: callers (SetIdentity, openStorage) use a trusted abstract view (T-abs); the function itself is proved
+// against a model of the name pipeline Glob -> Base -> TrimSuffix -> IndexByte -> ParseInt (T-std):
+// a value file written by value.set for ANY pair of uint64 values must reopen to that pair (C10, C05).
+//@ view openValue at SetIdentity, openStorage
 //@   modifies fs
 //@   ensures result1 == nil ==> result0 != nil && isfresh(result0) && result0.dir == dir && result0.ext == ext && ValueInv(result0)
 //@   ensures forall(a, b, old(fs[vfile(dir, ext, a, b)]) ==> fs == old(fs))
 //@   ensures forall(p, pkind(p) != 0 ==> fs[p] == old(fs[p]))
 //@   ensures result1 != nil ==> result0 == nil
+
+//@ ghost func gindexbyte(string, int) int
+//@ ghost func gisnum(string) bool
+//@ pure VStem(d string, e string, a uint64, b uint64) string = gtrim(gbase(vfile(d, e, a, b)), e)
+//@ pure VDash(d string, e string, a uint64, b uint64) int = gindexbyte(VStem(d, e, a, b), 45)
+//@ pure VPat(d string, e string) uint64 = pjoin(d, strcat("*", e))
+//@ ghost func gpatok(uint64) bool
+//@ axiom [T-std.glob-value] forall(d, e, a, b, gmatch(VPat(d, e), vfile(d, e, a, b))) && forall(d, e, gpatok(VPat(d, e)))
+//@ axiom [T-std.valuefile-parses] forall(d, e, a, b, 0 <= VDash(d, e, a, b) && VDash(d, e, a, b) < len(VStem(d, e, a, b)) && gisnum(substr(VStem(d, e, a, b), 0, VDash(d, e, a, b))) && gparse(substr(VStem(d, e, a, b), 0, VDash(d, e, a, b))) == a && gisnum(substr(VStem(d, e, a, b), VDash(d, e, a, b) + 1, len(VStem(d, e, a, b)))) && gparse(substr(VStem(d, e, a, b), VDash(d, e, a, b) + 1, len(VStem(d, e, a, b)))) == b)
+//@ func strings.IndexByte
+//@   trusted
+//@   ensures result0 == gindexbyte(s, c) && -1 <= result0 && result0 < len(s) && result0 < 4611686018427387904
+// T-std: ParseInt accepts a decimal numeral iff its value fits int64
+//@ func strconv.ParseInt
+//@   trusted
+//@   ensures gisnum(s) ==> (result1 == nil) == (gparse(s) < 9223372036854775808)
+//@   ensures result1 == nil ==> result0 == gparse(s)
+
+//@ func openValue
+//@   props C05 C10
+//@   modifies fs, fdone, fsize
+//@   ensures result1 != nil ==> result0 == nil
+//@   ensures [C10+C05.value-reopens] forall(a, b, old(fs[vfile(dir, ext, a, b)]) && old(forall(p, fs[p] && gmatch(VPat(dir, ext), p) ==> p == vfile(dir, ext, a, b))) ==> result1 == nil && result0 != nil && result0.v1 == a && result0.v2 == b && result0.dir == dir && result0.ext == ext)
+//@   ensures [C10.value-reopen-keeps-files] forall(a, b, old(fs[vfile(dir, ext, a, b)]) ==> fs == old(fs))
 
 //@ func SetIdentity
 //@   modifies fs, locked
